@@ -82,6 +82,7 @@ theorem step_set (bodies : List (List Char)) (k : List K) (s : State) (x : List 
       | group b => rfl
       | subsh b => rfl
       | andor l a r => rfl
+      | neg c => rfl
     | branch t e he =>
       by_cases h0 : s.status = 0 <;> cases he <;> simp [step, h0]
     | andK a r =>
@@ -92,6 +93,7 @@ theorem step_set (bodies : List (List Char)) (k : List K) (s : State) (x : List 
       · simp [step, h0] <;> (intro h1; simp at h0; exact absurd h0 h1)
     | loopBack u c b => rfl
     | restore sv => rfl
+    | negK => rfl
 
 /-! ### the operations that read the descriptor -/
 
